@@ -87,6 +87,11 @@ def filterIds (nTop nBottomPerId nEpsPerId : Nat) (ids : List String) : List (Op
 def mapName (paramMap : List (String × String)) (n : String) : String :=
   (paramMap.lookup n).getD n
 
+/-- the slip: looping over the map's entries and rewriting the whole name list for each entry —
+    a name that was already mapped is mapped again by a later entry -/
+def mapNamesSequential (paramMap : List (String × String)) (names : List String) : List String :=
+  paramMap.foldl (fun ns e => ns.map (fun n => if n == e.1 then e.2 else n)) names
+
 /-- `posterior[parameter].sel(individual=...)`, falling back to the whole variable when it has no
     individual dimension; the column of the raw chain that is read -/
 def readVar (ds : Dict) (r : Option Nat) (name : String) : Except IErr Nat :=
